@@ -264,6 +264,74 @@ Section Local.
     nra.
   Qed.
 
+  Lemma meeting_inside_opposite (pa pb po : rplane) (X : rvec) :
+    dot (snd pa) u = 0 -> on_plane q0 pa -> on_plane q1 pa -> pf pa c <> 0 ->
+    dot (snd pb) u = 0 -> on_plane q2 pb -> on_plane q3 pb -> pf pb c <> 0 ->
+    dot (snd po) u = 0 -> on_plane q4 po -> on_plane q5 po -> pf po c <> 0 ->
+    on_plane X pa -> on_plane X pb ->
+    0 < pf po X * pf po c.
+  Proof.
+    intros Hua Ha0 Ha1 Hac Hub Hb2 Hb3 Hbc Hum Hm1 Hm2 Hmc Xa Xb.
+    destruct turns as (K0 & K1 & K2).
+    set (x := vsub X c).
+    set (x0 := det3 p0 x u). set (x1 := det3 p1 x u). set (x2 := det3 p2 x u).
+    (* X on the line of [q0, q1] *)
+    pose proof (plane_ratio u c q0 q1 X pa Hua Ha0 Ha1) as Ra. cbv zeta in Ra.
+    fold p0 p1 x in Ra. fold A x0 x1 in Ra.
+    change (pf pa X = 0) in Xa. rewrite Xa in Ra.
+    assert (Ea : A - x0 + x1 = 0) by nra.
+    (* X on the line of [q2, q3] *)
+    pose proof (plane_ratio u c q2 q3 X pb Hub Hb2 Hb3) as Rb. cbv zeta in Rb.
+    fold p2 x in Rb.
+    assert (E3 : det3 p2 (vsub q3 c) u = C).
+    { rewrite S0. unfold C, p0, p2.
+      destruct q0 as [[a0 b0] c0], q2 as [[a2 b2] c2], c as [[cx cy] cz], u as [[u1 u2] u3].
+      unfold det3, dot, cross, vsub, vscale, vx, vy, vz; cbn. ring. }
+    assert (E4 : det3 (vsub q3 c) x u = - x0).
+    { rewrite S0. unfold x0, p0.
+      destruct q0 as [[a0 b0] c0], x as [[y1 y2] y3], c as [[cx cy] cz], u as [[u1 u2] u3].
+      unfold det3, dot, cross, vsub, vscale, vx, vy, vz; cbn. ring. }
+    rewrite E3, E4 in Rb. fold x2 in Rb.
+    change (pf pb X = 0) in Xb. rewrite Xb in Rb.
+    assert (Eb : C - x2 - x0 = 0) by nra.
+    (* dependence of p0, p1, p2 modulo u *)
+    pose proof (cramer4 p0 p1 u p2 (cross x u)) as Cr.
+    assert (Z : dot (cross x u) u = 0).
+    { destruct x as [[y1 y2] y3], u as [[u1 u2] u3]. unfold dot, cross, vx, vy, vz; cbn. ring. }
+    assert (L : forall v, dot (cross x u) v = det3 v x u).
+    { intros v. destruct x as [[y1 y2] y3], u as [[u1 u2] u3], v as [[v1 v2] v3].
+      unfold det3, dot, cross, vx, vy, vz; cbn. ring. }
+    rewrite Z, !L in Cr. fold A x0 x1 x2 in Cr.
+    assert (E5 : det3 p2 p1 u = - B) by (unfold B; apply det3_swap12).
+    rewrite E5 in Cr. fold C in Cr.
+    (* the line of [q4, q5] = [2c - q1, 2c - q2] *)
+    pose proof (plane_ratio u c q4 q5 X po Hum Hm1 Hm2) as Rm. cbv zeta in Rm. fold x in Rm.
+    assert (F0 : det3 (vsub q4 c) (vsub q5 c) u = B).
+    { rewrite S1, S2. unfold B, p1, p2.
+      destruct q1 as [[a1 b1] c1], q2 as [[a2 b2] c2], c as [[cx cy] cz], u as [[u1 u2] u3].
+      unfold det3, dot, cross, vsub, vscale, vx, vy, vz; cbn. ring. }
+    assert (F1 : det3 (vsub q4 c) x u = - x1).
+    { rewrite S1. unfold x1, p1.
+      destruct q1 as [[a1 b1] c1], x as [[y1 y2] y3], c as [[cx cy] cz], u as [[u1 u2] u3].
+      unfold det3, dot, cross, vsub, vscale, vx, vy, vz; cbn. ring. }
+    assert (F2 : det3 (vsub q5 c) x u = - x2).
+    { rewrite S2. unfold x2, p2.
+      destruct q2 as [[a2 b2] c2], x as [[y1 y2] y3], c as [[cx cy] cz], u as [[u1 u2] u3].
+      unfold det3, dot, cross, vsub, vscale, vx, vy, vz; cbn. ring. }
+    rewrite F0, F1, F2 in Rm.
+    assert (HB : 0 < B) by lra.
+    assert (HS : 0 < A + C - B) by lra.
+    assert (Ex0 : x0 * (A + C - B) = 2 * A * C) by nra.
+    assert (Ek : (A + C - B) * (B - x1 + x2) = (A - C - B) * (A - C + B)) by nra.
+    assert (Hk : B - x1 + x2 < 0).
+    { assert (H1 : (A - C - B) * (A - C + B) < 0) by nra.
+      rewrite <- Ek in H1. nra. }
+    assert (Hsq : 0 < pf po c * pf po c) by nra.
+    assert (E : B * (pf po X * pf po c) = pf po c * pf po c * (B - - x1 + - x2)) by (rewrite <- Rmult_assoc, Rm; ring).
+    assert (0 < pf po c * pf po c * (B - - x1 + - x2)) by (apply Rmult_lt_0_compat; lra).
+    nra.
+  Qed.
+
   (* planes of two sides whose directions are independent modulo u are not parallel *)
   Lemma not_parallel (pa pb : rplane) (a1 a2 b1 b2 : rvec) :
     det3 (vsub a2 a1) (vsub b2 b1) u <> 0 ->
@@ -437,6 +505,18 @@ Section Global.
     intros (A0 & A1 & A2) Ac (B0 & B1 & B2) Bc (M0 & M1 & M2) Mc Xa Xb.
     exact (meeting_beyond c u (wv k) (wv (k + 1)) (wv (k + 2)) (wv (k + 3)) (wv (k + 4)) (wv (k + 5))
              (Hsym k) (S1k k) (S2k k) (Hturn k) (T1k k) (T2k k) pa pb pm X
+             A0 A1 A2 Ac B0 B1 B2 Bc M0 M1 M2 Mc Xa Xb).
+  Qed.
+
+  Lemma G_opp k pa pb po X :
+    through pa (wv k) (wv (k + 1)) -> pf pa c <> 0 ->
+    through pb (wv (k + 2)) (wv (k + 3)) -> pf pb c <> 0 ->
+    through po (wv (k + 4)) (wv (k + 5)) -> pf po c <> 0 ->
+    on_plane X pa -> on_plane X pb -> 0 < pf po X * pf po c.
+  Proof.
+    intros (A0 & A1 & A2) Ac (B0 & B1 & B2) Bc (M0 & M1 & M2) Mc Xa Xb.
+    exact (meeting_inside_opposite c u (wv k) (wv (k + 1)) (wv (k + 2)) (wv (k + 3)) (wv (k + 4)) (wv (k + 5))
+             (Hsym k) (S1k k) (S2k k) (Hturn k) (T1k k) (T2k k) pa pb po X
              A0 A1 A2 Ac B0 B1 B2 Bc M0 M1 M2 Mc Xa Xb).
   Qed.
 
